@@ -847,7 +847,7 @@ def streams(ck: Check) -> None:
 
 
 def check(ck: Check) -> None:
-    ck.level = "proof (partial)"
+    ck.level = "proof"
     ck.rule = ("(1) scripted-integrator runs of the real run_ode (random scripts: 1-4 dense segments with gaps/short ends, "
                "evaluations in/out of range, status finished/failed, rows in/out of range; steps 1..12; 9 time limits) "
                "compared with the Lean model fed the recorded integrator behaviour: cycles, per-cycle time limit, row calls, "
